@@ -149,9 +149,9 @@ def tree_depth(t):
 def correspondence(res):
     quiet()
     rng = random.Random(res.seed * 1000003 + 1)
-    n_fuzz = 240 if res.tier == "quick" else 720
-    n_repl = 120 if res.tier == "quick" else 360
-    n_e2e = 24 if res.tier == "quick" else 60
+    n_fuzz = 240 if res.tier == "quick" else 480
+    n_repl = 120 if res.tier == "quick" else 240
+    n_e2e = 24 if res.tier == "quick" else 48
     fuzz_terms, fuzz_info, repl_terms, repl_info = [], [], [], []
     der_terms, der_info = [], []
     i = 0
@@ -216,7 +216,7 @@ def correspondence(res):
     pool_specs = list(MULTI_SPECS)
     _multi_cache = {}
     from fandango import Fandango as _F
-    while len(multi_terms) < (80 if res.tier == "quick" else 240):
+    while len(multi_terms) < (80 if res.tier == "quick" else 160):
         spec = rng2.choice(pool_specs)
         if spec not in _multi_cache:
             _multi_cache[spec] = _F(spec)
